@@ -4,6 +4,28 @@ import importlib, json, os, sys
 sys.path.insert(0, "/verif")
 props = [json.loads(l) for l in open("/verif/properties.jsonl")]
 BASE = "cd /repo && /venv/bin/python -m pytest -ra -q -p no:cacheprovider --timeout=900 --continue-on-collection-errors"
+NOT_DECIDED = {
+ "C01": "user-supplied node/arrival/exit subclasses; an event aborted by an exception half-way (C14)",
+ "C02": "the inequalities arrival <= start <= end <= exit <= now as runtime values (non-negativity of time_left, PS projection, float rounding)",
+ "C03": "numerical equality of dates across records (covered structurally: both are `now` of one event)",
+ "C04": "'at most c in service at every instant' and the value of the utilisation (runtime sets / float sums); only the accounting formulas and the typestate are decided",
+ "C05": "the instant-by-instant occupancy itself; custom disciplines",
+ "C06": "nothing numerical beyond the guards; user routers for jockeying",
+ "C07": "time_blocked values",
+ "C08": "the realised order of service starts in a run; custom disciplines",
+ "C09": "that zero-probability entries are never drawn (random() end points) and the distribution of choices",
+ "C10": "a per-sample audit of a run (realised durations == logged samples); patience and class-change samples are raw by design of the property",
+ "C11": "'total time served equals the original requirement' (arithmetic over a history)",
+ "C12": "that the cyclic date formula is the intended timetable (arithmetic); only the wiring of table, offset and generator is decided",
+ "C13": "probabilities and exact renege instants in a run",
+ "C14": "absence of all other internal errors (user callbacks, malformed parameters accepted by validation); R9 does not track Individual attributes set by the node",
+ "C15": "bit-identical floats (follows from the decided clauses given CPython determinism); determinism of user callables",
+ "C16": "determinism of user callbacks; the tie case is excluded by the property",
+ "C17": "the time-weighted arithmetic of state_probabilities beyond its normalisation; MatrixBlocking rank renumbering",
+ "C18": "soundness/completeness of the knot search and of the incremental edge maintenance (graph-algorithmic); only wiring, purity and time arithmetic are decided",
+ "C19": "the work integral over a run and the FIFO equivalence",
+ "C20": "agreement with the float run 'up to rounding'",
+}
 checks, na = [], []
 for p in props:
     pid = p["id"]
@@ -25,7 +47,10 @@ for p in props:
         "level_claimed": {"category": "other",
                           "text": getattr(mod, "LEVEL_TEXT", mod.EXPLANATION),
                           "design_ref": "DESIGN.md section 4, %s" % pid},
-        "level_note": getattr(mod, "LEVEL_NOTE", "Decides the structural clauses named above on every syntactic path; does not execute ciw. Trusted base: CPython ast parser, the engine in /verif/sa, the instance tables and callback table in DESIGN.md; only in-repo classes are assumed to be plugged into Simulation. Not decided: see DESIGN.md section 4 'Not decided' for this property."),
+        "level_note": "Decides the structural clauses named in level_claimed.text on every syntactic path (and configuration valuation) of the current source; ciw is never imported or executed. "
+                      "NOT decided: %s. Trusted base: the CPython ast parser; the engine in /verif/sa; the instance tables / floors in sa/props/%s.py (each confirmed by reading); "
+                      "only in-repo classes are assumed to be plugged into Simulation. Thorough tier additionally re-derives breaking and preserving variants of the current tree and "
+                      "fails (exit 2) if a rule is insensitive or over-sensitive." % (NOT_DECIDED[pid], pid.lower()),
         "technique": getattr(mod, "TECHNIQUE", "static analysis: repository-specific AST path-enumeration rules (no execution)"),
     })
 m = {"version": 1, "setup_cmd": "true",
